@@ -275,3 +275,16 @@ macro_rules! generate_test_svd_solve {
 
 generate_test_svd_solve!(f32, test_svd_solve_f32, sqrt);
 generate_test_svd_solve!(f64, test_svd_solve_f64, abs);
+
+// ---------------------------------------------------------------------------
+// verification hooks (add-only, off unless feature `verif-hooks` is enabled)
+#[cfg(feature = "verif-hooks")]
+impl<T> SVDEngine<T>
+where
+    T: FloatT,
+{
+    /// lengths of the private BLAS work vectors (work, iwork)
+    pub(crate) fn vh_work_lens(&self) -> (usize, usize) {
+        (self.work.len(), self.iwork.len())
+    }
+}
